@@ -2,6 +2,7 @@
 redirection by a mechanical AST rewrite of the function's current source; symbolic sequences/maps of records."""
 import ast, inspect, textwrap, builtins, z3
 
+POW2_FUNCS = set()      # names of uninterpreted functions a contract uses for 2**k (registered by the contract module)
 class PathEnd(Exception): pass
 class Unsupported(Exception): pass
 
@@ -86,9 +87,17 @@ class SymInt:
     __str__ = __repr__ = lambda self: f"<{self.t}>"
     def __and__(self, o):
         # only masks of the form 2**k - 1 with concrete k are linear:  x & (2**k-1) == x % 2**k
-        if isinstance(o, int) and o >= 0 and (o & (o + 1)) == 0: return SymInt(self.t % (o + 1))
+        if isinstance(o, int) and not isinstance(o, bool) and o >= 0 and (o & (o + 1)) == 0: return SymInt(self.t % (o + 1))
+        if isinstance(o, int) and not isinstance(o, bool) and o < 0 and ((-o) & (-o - 1)) == 0: return SymInt(self.t - self.t % (-o))     # x & -(2**k) == x & ~(2**k - 1)
+        if isinstance(o, SymInt) and getattr(o, "_inv_of", None) is not None:
+            # x & ~(p - 1) for a p the contract knows to be a power of two (an application of one of POW2_FUNCS, e.g. the uninterpreted pow2(k)
+            # standing for 2**k): clears the low bits, x - x mod p, for every Python int x
+            p = z3.simplify(o._inv_of + 1)
+            if z3.is_app(p) and p.decl().name() in POW2_FUNCS: return SymInt(self.t - self.t % p)
         raise Unsupported("bitwise & on symbolic int")
     __rand__ = __and__
+    def __invert__(self):
+        r = SymInt(-self.t - 1); r._inv_of = self.t; return r
     def __rshift__(self, k):
         # x >> k for a concrete k >= 0 is floor(x / 2**k) for every Python int; z3's integer division by a positive constant is that floor
         if isinstance(k, int) and not isinstance(k, bool) and k >= 0: return SymInt(self.t / (1 << k))
